@@ -243,6 +243,19 @@ def walk_nodes(g, v):
 def roundtrip_stream(ctx, g, batch, ir, auxinfo, bs, tag):
     """RT: load(save(ir)) has the same content, deep_eq both ways, re-save gives the same content"""
     d7 = is_d7(g, ir)
+    if auxinfo and ctx.rng.random() < 0.5:
+        # the same table bytes decoded first OUTSIDE any IR (every UUID is then a plain UUID): a later load must not remember that
+        try:
+            p0 = parse_body(bs)
+            for cont in [p0] + list(p0.modules):
+                for k in cont.aux_data:
+                    try:
+                        g.AuxData.serializer.decode(bytes(cont.aux_data[k].data), cont.aux_data[k].type_name)
+                    except Exception:  # noqa: BLE001
+                        pass
+            ctx.count("standalone_decode_before_load")
+        except Exception:  # noqa: BLE001
+            pass
     try:
         ir2 = load_bytes(g, bs)
     except Exception as e:  # noqa: BLE001
@@ -264,6 +277,23 @@ def roundtrip_stream(ctx, g, batch, ir, auxinfo, bs, tag):
     aux_values_check(ctx, g, ir2, auxinfo, ir, tag)
     for prob in content.identity_check(g, ir2) + content.coherence(g, ir2):
         ctx.add("oracle", "roundtrip:coherence", prob, {"tag": tag, "file": bs.hex()})
+    if auxinfo:
+        # the same file loaded once more in this process: every reference and every AuxData UUID/Offset entry of the SECOND IR must
+        # be that IR's own attached object (nothing remembered from the first load)
+        try:
+            ir3 = load_bytes(g, bs)
+            n0 = len(ctx.findings)
+            aux_values_check(ctx, g, ir3, auxinfo, ir, tag + ":second-load")
+            for prob in content.identity_check(g, ir3):
+                ctx.add("oracle", "roundtrip:coherence", "second load of the same file: " + prob, {"tag": tag, "file": bs.hex()})
+            for f in ctx.findings[n0:]:
+                f.what = "on a second load of the same file in one process: " + f.what
+                if isinstance(f.replay, dict):
+                    f.replay.setdefault("file", bs.hex())
+                    f.replay["second_load"] = True
+            ctx.count("second_loads")
+        except Exception as e:  # noqa: BLE001
+            ctx.add("oracle", "roundtrip:load-raised", "a second load of the same file raises %s" % exc_name(g, e), {"tag": tag, "file": bs.hex()})
     try:
         bs2 = save_bytes(ir2)
         m1 = content.canon_msg(content.msg_to_sx(parse_body(bs)))
